@@ -637,6 +637,18 @@ func (s *Seq) opCreate(op *Op) {
 		nc.Cache, nc.Async, nc.Threshold, nc.TimeoutMs, nc.OffStruct = op.NCfg.Cache, op.NCfg.Async, op.NCfg.Threshold, op.NCfg.TimeoutMs, op.NCfg.OffStruct
 		cfg = &nc
 	}
+	if op.Mode == "cycle" && op.NCfg != nil && cfg.Async {
+		off := *cfg
+		off.Async, off.OffStruct = false, op.Flag
+		if err := s.db.Create(rec0(), off.Schema()); err != nil {
+			s.fail("guard", "compatible-create-failed", "Create with a compatible schema (async off) failed: %v", err)
+		}
+		s.stat("create-async-cycle")
+		if op.Lid%2 == 0 {
+			// long enough for the flusher to notice that it is not wanted any more
+			s.W.Sleep(250 * time.Millisecond)
+		}
+	}
 	err := s.db.Create(rec0(), cfg.Schema())
 	if err != nil {
 		s.fail("guard", "compatible-create-failed", "Create with a compatible schema failed: %v", err)
